@@ -18,12 +18,12 @@ const Level = "fault_enumeration"
 
 // Case is one enumerated crash scenario.
 type Case struct {
-	Shape    string `json:"chain_shape"`
-	Mode     string `json:"delivery"` // inorder | cascade
-	Block    int    `json:"crash_while_applying_block_index"`
-	K        []int  `json:"crash_after_writes"`
-	Redeliv  string `json:"redelivery"` // rest | all | shuffled
-	OrderSeed int64 `json:"order_seed"`
+	Shape     string `json:"chain_shape"`
+	Mode      string `json:"delivery"` // inorder | cascade
+	Block     int    `json:"crash_while_applying_block_index"`
+	K         []int  `json:"crash_after_writes"`
+	Redeliv   string `json:"redelivery"` // rest | all | shuffled
+	OrderSeed int64  `json:"order_seed"`
 }
 
 func (c Case) key() string {
